@@ -206,7 +206,7 @@ fn main() {
             ctx.family(name, &format!("every history of length <= {len} over 10 actions (insert(k,v,Local|Global) for k,v in {{0,1}}, begin_group, end_group also with no group open); after every step return value, get, len, is_empty, iter; at the end drain of end_group calls and replay law (visible values, ==, iter_all of the rebuilt map, drain of the rebuilt map)"), n, |i, acc| {
                 let h: Vec<u8> = vcore::nth_string(gmap::N_ACT as u64, i).into_iter().map(|x| x as u8).collect();
                 run_gmap(container, i, &h, acc);
-                if i == 7_424_242 && container == "hash" {
+                if i == 1_939_310 && container == "hash" {
                     // (sample indices only order the samples that are kept)
                     acc.sample(1, || json!({"grouping_map_history": gmap::render(&h), "legend": "L/G k=v: local/global insert, { begin_group, } end_group", "checked": "return values, get/len/iter after every step against the stack-of-snapshots model; drain; replay law"}));
                 }
@@ -331,7 +331,7 @@ fn fold_schedules(ctx: &mut Ctx) {
     }
     let mut acc = Acc::default();
     let mut bounds = vec![];
-    for c in v["configurations"].as_array().cloned().unwrap_or_default() {
+    for (ci, c) in v["configurations"].as_array().cloned().unwrap_or_default().into_iter().enumerate() {
         let s = c["schedules"].as_u64().unwrap_or(0);
         let o = c["distinct_outcomes"].as_u64().unwrap_or(0);
         acc.evals += s;
@@ -343,7 +343,8 @@ fn fold_schedules(ctx: &mut Ctx) {
         acc.count_n("tag_schedules_lock_contended", c["schedules_with_contention"].as_u64().unwrap_or(0));
         acc.class(&format!("tags {}: {} schedules, {} outcomes", c["name"].as_str().unwrap_or("?"), s, o));
         bounds.push(format!("{} ({} schedules)", c["name"].as_str().unwrap_or("?"), s));
-        acc.sample(0, || json!({"tag_configuration": c["name"], "sample_outcomes": c["sample_outcomes"]}));
+        // (sample indices only order the samples that are kept: one tag configuration, then a grouping-map and an interner history)
+        acc.sample(if ci == 0 { 0 } else { 5000 + ci as u64 }, || json!({"tag_configuration": c["name"], "sample_outcomes": c["sample_outcomes"], "legend": "per thread: ranks of the tags it created, s<rank> = value its StaticTag::get() returned"}));
     }
     ctx.require("tag_schedules_lock_contended", "schedules in which a thread had to wait for a seam lock");
     ctx.extra("tag_schedules", json!({"present": true, "folded": true, "file": v}));
